@@ -16,7 +16,7 @@ CLAIMS = {
     },
     "C07": {
         "level": "other",
-        "text": "Binary row layout rules: bitmap length (n+9)/8 and NULL bit (c+2)/8, (c+2)%8 as affine normal forms (offset 2 in all three places, for every column count); row header 00 once at column 0 followed by a zero-filled bitmap of bitmap_len bytes, relying on the buffer being empty (constructor + clear() in end_row, which writes the buffer whole before exactly one packet end); NULL for NOT NULL refused, NULL never encoded, non-NULL never sets a bit; per (impl, column-type arm) emission layouts for f32/f64/byte strings/DATE/DATETIME/TIME vs the protocol, with length-byte self-consistency, slot sources by accessor name, TIME div/mod formulas, zero-length TIME only when seconds and micros are zero, 7-byte DATETIME exactly when the fraction is zero, other column types refused. Rows of 16 MiB and more are split by the framer, so the framing clauses of C04 are evaluated here as well. The sequence-id clauses of C05 (stamp and wrap, reset per exchange) are evaluated together with them (one `wire bundle`). The 00 row header is required exactly once in front of the bitmap of each row packet, wherever it is written (column 0 of write_col or end_row).",
+        "text": "Binary row layout rules: bitmap length (n+9)/8 and NULL bit (c+2)/8, (c+2)%8 as affine normal forms (offset 2 in all three places, for every column count); row header 00 once at column 0 followed by a zero-filled bitmap of bitmap_len bytes, relying on the buffer being empty (constructor + clear() in end_row, which writes the buffer whole before exactly one packet end); NULL for NOT NULL refused, NULL never encoded, non-NULL never sets a bit; per (impl, column-type arm) emission layouts for f32/f64/byte strings/DATE/DATETIME/TIME vs the protocol, with length-byte self-consistency, slot sources by accessor name, TIME div/mod formulas, zero-length TIME only when seconds and micros are zero, 7-byte DATETIME exactly when the fraction is zero, other column types refused. Rows of 16 MiB and more are split by the framer, so the framing clauses of C04 are evaluated here as well. The sequence-id clauses of C05 (stamp and wrap, reset per exchange) are evaluated together with them (one `wire bundle`). The 00 row header is required exactly once in front of the bitmap of each row packet, wherever it is written (column 0 of write_col or end_row). Wrapper impls of the value trait whose binary encoder delegates to an inner value that may be NULL answer is_null() with the inner value's answer (found and fixed: &T and Option<T> did not, a NULL offered by reference or as Some(Value::NULL) panicked the connection instead of setting its bitmap bit).",
         "note": "Trusted: chrono accessors, lenenc writer. Integer exactness is C15's. Generic Value::Date/Time conversion through chrono is not decided.",
         "technique": "affine normal forms, emission-sequence analysis per column-type arm, path rules on write_col/end_row",
     },
